@@ -2867,6 +2867,8 @@ static int scan_delim_string(struct scanner_s *scanner) {
 
             if (c == delim) {
                 PEEK_CHAR(scanner, c, result);
+                /* peeking may have refilled, moved or enlarged the buffer */
+                top = scanner->buffer + scanner->buffer_limit;
 
                 if (result != CIF_EOF) {
                     if (result != CIF_OK) {
